@@ -8,6 +8,12 @@ CHECKS = {
  "C01": dict(cat="proof", tech="abstract interpretation of THIR: panic-freedom obligations under type invariants, loop ranking, iterator typestate",
    text="Every partial operation (index, slice range, arithmetic overflow, unwrap/expect, explicit panic, std preconditions) reachable from the 16 parsing entry points on an arbitrary byte string, and from every public method/conversion/iterator on every value they can return, is an obligation discharged for all inputs under the facts of the constructing path (type invariant); every loop gets a ranking argument; every stateful iterator an inductive state invariant (Houdini) and a lexicographic progress measure bounded by the input length; Compound::next is justified by recurrence agreement with the validation loop of Compound::parse.",
    note=TB + "allocation failure/stack exhaustion out of scope; documented-panic exemption only for methods with a '# Panic' doc section called directly.", ref="§4 C01"),
+ "C06": dict(cat="proof", tech="abstract interpretation of size calculators and writers (loop closed forms, prefix sums, write log); entailment of return value == announced size; trait-contract assume/guarantee for dyn members",
+   text="For all 18 builders (10 packet-level incl. the PacketBuilder enum and the compound builder, 5 FCI, SDES chunk/item, report block) SIZE and WRITE summaries are computed for all configurations; under SIZE = Ok(n) and a buffer of n bytes every writer obligation (bounds, slice ranges, copy lengths, arithmetic, asserts) is discharged, the returned value is entailed equal to n and n is a whole number of words; the three write_into wrappers are shown to return the size error unchanged, OutputTooSmall(n) exactly when len < n, and otherwise the unchecked write into exactly buf[..n]; compound members and FCI builders behind `dyn` obey a stated trait contract which every impl in the crate is verified against (so all feedback x FCI pairings and compounds of arbitrary members are covered compositionally).",
+   note=TB + "contract clauses for third-party trait objects: size is the same on every call, FCI size is a multiple of 4, format() <= 31.", ref="§4 C06"),
+ "C17": dict(cat="proof", tech="symbolic tiling of the abstract write log (frontier argument, per-element chaining for loops), def-before-use on buffer bytes, wrapper view restriction",
+   text="The write log of every write_into_unchecked, under SIZE = Ok(n), is shown to tile [0,n) for all configurations: regions are ordered by entailment, per-element regions of loops chain (end of element k = start of element k+1, via prefix-sum step facts), dyn members are regions of their announced size; no byte of the output buffer is read before the same call wrote it (so the result is independent of prior contents); every region lies inside [0,n); the write_into wrappers pass exactly buf[..n] on and perform no write on any failing path.",
+   note=TB, ref="§4 C17"),
  "C08": dict(cat="proof", tech="path-condition entailment of RFC framing facts on every accepting path; header accessor summaries vs RFC header table",
    text="On every Ok outcome of every typed parser, of the generic parser per dispatched variant, and of the unknown parser, the path condition entails (for all inputs) minimum size, version 2, the RFC packet type, len = 4*(length field+1), padding bit => non-zero final byte, and count-implied body size, with all constants taken from an independent RFC table; version/type_/count/subtype/length/padding accessor summaries are entailed equal to those header values.",
    note=TB + "RFC constants in rtcpverif/spec.py.", ref="§4 C08"),
